@@ -165,6 +165,15 @@ def update_normal_form(prog: Program, flags: dict[str, bool]):
         return None
 
     it = Interp(prog, dom, depth=3, call_hook=hook, decide_hook=decide)
+    # attributes the constructor derives from its parameters (e.g. a cached standard deviation)
+    init = prog.func("tracker.Tracker.__init__")
+    try:
+        it.objenv["time.dt"] = NF.atom("dt") * NF.atom("unit:s")
+        it.run(init, dict(advection="RK4" if flags.get("advection") else "", diffusion=NF.atom("D"), vertdiff=NF.atom("Dz"), vertical_advection=bool(flags.get("vertical_advection")), modules=Ref("modules")), "tracker")
+    except Exception:  # constructor outside the supported subset: attributes stay opaque atoms
+        pass
+    for k in [k for k in it.objenv if k.startswith("tracker.") and isinstance(it.objenv[k], (bool, str)) or k in ("tracker.rng", "tracker.modules", "tracker.advect")]:
+        it.objenv.pop(k, None)
     it.objenv["state.X"] = NF.atom("X")
     it.objenv["state.Y"] = NF.atom("Y")
     it.objenv["state.Z"] = NF.atom("Z")
